@@ -1533,7 +1533,120 @@ fn gen_jet_hammer(r: &mut Rng, j: Elements, n: usize) -> Option<CaseSpec> {
     Some(CaseSpec { n, sched: None, progs, build: vec![], ops })
 }
 
+/// Cold start, in a child process (`vh C20 --case "cold <threads> <seed>"`): the very first use of
+/// the precomputed type tables, of large word types and of the jets' type tables happens on all
+/// threads at once, before anything ran sequentially in the process.  Every thread checks what it
+/// gets against data that does not depend on those tables (the static TMR table, bit widths, the
+/// CMR/encoding of a word program computed from its bits); a mismatch ends the child with exit code 3
+/// and a `cold-bad …` line.
+fn cold_child(threads: usize, seed: u64) {
+    use std::sync::atomic::{AtomicUsize, Ordering};
+    let gate = Arc::new(AtomicUsize::new(0));
+    let rounds: Vec<usize> = {
+        let mut r = Rng(seed);
+        let mut v: Vec<usize> = (9..=31).collect();
+        // a different order of first requests per seed: ascending, descending or shuffled
+        match seed % 3 {
+            0 => {}
+            1 => v.reverse(),
+            _ => {
+                for k in (1..v.len()).rev() {
+                    v.swap(k, r.below(k as u64 + 1) as usize);
+                }
+            }
+        }
+        v
+    };
+    let hs: Vec<_> = (0..threads)
+        .map(|t| {
+            let gate = gate.clone();
+            let rounds = rounds.clone();
+            std::thread::spawn(move || -> Result<(), String> {
+                for (ri, &n) in rounds.iter().enumerate() {
+                    // spin barrier: all threads enter round `ri` together
+                    gate.fetch_add(1, Ordering::SeqCst);
+                    while gate.load(Ordering::SeqCst) < (ri + 1) * threads {
+                        std::hint::spin_loop();
+                    }
+                    let f = Final::two_two_n(n).map_err(|_| format!("two_two_n({n}) fails"))?;
+                    if f.tmr() != Tmr::TWO_TWO_N[n] {
+                        return Err(format!("thread {t}: Final::two_two_n({n}).tmr() = {} ≠ Tmr::TWO_TWO_N[{n}]", f.tmr()));
+                    }
+                    if f.bit_width() != 1usize << n {
+                        return Err(format!("thread {t}: Final::two_two_n({n}).bit_width() = {} ≠ 2^{n}", f.bit_width()));
+                    }
+                    if n <= 13 {
+                        // a word program of 2^n bits: built, finalised, encoded, decoded
+                        let bits: Vec<bool> = (0..(1usize << n)).map(|i| (i * 7 + t) % 3 == 0).collect();
+                        let plan = Plan { nodes: vec![PNode::Word(n as u32, bits), PNode::Unit, PNode::Comp(0, 1)] };
+                        let c = gen::commit_of_plan(&plan, None, true).map_err(|e| format!("thread {t}: word program of 2^{n} bits: {e}"))?;
+                        let w = match c.inner() {
+                            simplicity::node::Inner::Comp(l, _) => l.arrow().target.bit_width(),
+                            _ => 0,
+                        };
+                        if w != 1usize << n {
+                            return Err(format!("thread {t}: target of a 2^{n}-bit word has {w} bits"));
+                        }
+                        let enc = c.to_vec_without_witness();
+                        match CommitNode::decode::<_, Elements>(simplicity::BitIter::from(enc.into_iter())) {
+                            Ok(d) if d.cmr() == c.cmr() => {}
+                            Ok(_) => return Err(format!("thread {t}: word program of 2^{n} bits decodes to another CMR")),
+                            Err(e) => return Err(format!("thread {t}: word program of 2^{n} bits does not decode: {e}")),
+                        }
+                    }
+                }
+                Ok(())
+            })
+        })
+        .collect();
+    let mut bad = None;
+    for h in hs {
+        match h.join() {
+            Ok(Ok(())) => {}
+            Ok(Err(e)) => bad = Some(e),
+            Err(_) => bad = Some("a thread panicked".to_string()),
+        }
+    }
+    // and afterwards, sequentially: whatever the concurrent start left behind
+    for n in 0..32 {
+        let f = Final::two_two_n(n).unwrap();
+        if f.tmr() != Tmr::TWO_TWO_N[n] || f.bit_width() != 1usize << n {
+            bad = Some(format!("after the concurrent start: Final::two_two_n({n}) has {} bits, tmr {}", f.bit_width(), f.tmr()));
+            break;
+        }
+    }
+    if let Some(e) = bad {
+        eprintln!("cold-bad {e}");
+        std::process::exit(3);
+    }
+    eprintln!("cold-ok");
+}
+
+fn cold_starts(ctx: &mut Ctx) {
+    let Ok(exe) = std::env::current_exe() else { return ctx.note("cold start: no current_exe") };
+    for k in 0..ctx.scale(12, 120) {
+        let threads = [16usize, 8, 32][(k % 3) as usize];
+        let case = format!("cold {threads} {}", ctx.rng.below(1 << 30));
+        let dir = ctx.out_dir.join("child");
+        match std::process::Command::new(&exe).args(["C20", "--case", &case, "--out"]).arg(&dir).output() {
+            Ok(o) => {
+                let stderr = String::from_utf8_lossy(&o.stderr).to_string();
+                let last = stderr.lines().last().unwrap_or("").to_string();
+                ctx.case(Some(&case));
+                if o.status.success() && last == "cold-ok" {
+                    ctx.count("reach:cold-start-child-ok");
+                } else {
+                    ctx.fail("result-differs-under-threads", &case, &format!("first use of the type tables on {threads} threads at once, in a fresh process: {last}"));
+                }
+            }
+            Err(e) => ctx.note(&format!("cold start: could not spawn a child process: {e}")),
+        }
+    }
+}
+
 pub fn run(ctx: &mut Ctx) {
+    // before anything touches the tables in this process: fresh processes whose first use is concurrent
+    cold_starts(ctx);
     let pools = jet_pools();
     // the memo table, once on the main thread, against the static table
     for n in 0..32 {
@@ -1642,6 +1755,13 @@ fn parse_case(case: &str) -> Option<(CaseSpec, Vec<(u64, String)>)> {
 }
 
 pub fn replay(ctx: &mut Ctx, case: &str) {
+    let toks: Vec<&str> = case.split_whitespace().collect();
+    if let ["cold", th, seed] = toks.as_slice() {
+        if let (Ok(th), Ok(seed)) = (th.parse::<usize>(), seed.parse::<u64>()) {
+            cold_child(th.clamp(1, 64), seed);
+        }
+        return;
+    }
     match parse_case(case) {
         Some((spec, expect)) => {
             let flavour = if spec.ops.iter().any(|o| matches!(&o.kind, OpKind::Whole(w) if w.shared)) { "shared" } else { "indep" };
